@@ -33,6 +33,9 @@ type Obligation struct {
 	Extra          string // extra declarations after prelude
 	Result         *SolveResult
 	ReplayFn       string
+	fc             *FuncContract // ensures obligations: the contract, the clause and the SMT terms of the parameters (for replay)
+	clause         Expr
+	paramTerms     []string
 }
 
 // State maps state components (heap regions, ghost variables, $alloc) to SMT terms. Components that have not been
